@@ -39,7 +39,7 @@ def generate(tier, seed):
              ('p(a). :- a, not a.', 'p(a).'), ('q :- a0 < a. :- a, not a.', 'q.'), ('p(a) :- a.', 'p(a) :- a, not not a.'),
              ('q :- s, hs < hs0.', 'q :- s.'), ('q :- s, ts = ts.', 'q :- s, hs != ts.'), ('p(hs) :- s.', 'p(ts) :- s.'),
              ('q(hs, ts) :- s.', 'q(hs, ts) :- s, hs < ts.'),
-             # ... and a constant that already carries the name the renaming would pick (known finding: the two are merged)
+             # ... and a constant that already carries the name the renaming would pick (they were merged until fix 7c0d6c6)
              ('q :- s, hs__s = hs.', 'q :- s.'), ('q :- s, hs__s != hs.', 'q :- s.')]
     n = 150 if tier == 'quick' else 676
     items = []
